@@ -70,6 +70,18 @@ func c30DeepSolve(root *ssa.Function, bind func(e *penv, g *ssa.Function)) *c30D
 				d.bindParams(e, g)
 			}
 			d.bindCalls(e, g)
+			// a bound slice value stands for its length (nil = 0)
+			allInstrs(g, func(in ssa.Instruction) {
+				if call, ok := in.(*ssa.Call); ok && calleeName(&call.Call) == "builtin:len" && len(call.Call.Args) == 1 {
+					if _, isSlice := call.Call.Args[0].Type().Underlying().(*types.Slice); isSlice {
+						if n, has := e.vals[call.Call.Args[0]]; has {
+							if _, done := e.vals[call]; !done {
+								e.vals[call] = n
+							}
+						}
+					}
+				}
+			})
 			e.solve(g)
 			d.envs[g] = e
 		}
@@ -244,6 +256,42 @@ func c30BindLenField(e *penv, g *ssa.Function, typ, field string, n int64) {
 			}
 		}
 	})
+}
+
+// c30Callees: fn, its closures, and the functions of its package that they call
+// or defer, transitively (depth 3): the code that runs as part of one call of fn.
+func c30Callees(fn *ssa.Function) []*ssa.Function {
+	seen := map[*ssa.Function]bool{}
+	var out []*ssa.Function
+	var rec func(f *ssa.Function, d int)
+	rec = func(f *ssa.Function, d int) {
+		if f == nil || seen[f] || d > deepDepth {
+			return
+		}
+		seen[f] = true
+		out = append(out, f)
+		for _, a := range f.AnonFuncs {
+			rec(a, d)
+		}
+		allInstrs(f, func(in ssa.Instruction) {
+			switch in.(type) {
+			case *ssa.Call, *ssa.Defer:
+				if g := samePkgCallee(fn, callCommon(in)); g != nil {
+					rec(g, d+1)
+				}
+			}
+		})
+	}
+	rec(fn, 0)
+	return out
+}
+
+// c30BindNilField binds, in g, every load of the slice field typ.field as nil
+// (nonNil = 0) or as a non-empty slice (nonNil = 1): the value for comparisons
+// with nil AND its length, so that `x == nil` and `len(x) == 0` read the same.
+func c30BindNilField(e *penv, g *ssa.Function, typ, field string, nonNil int64) {
+	e.bindField(g, typ, field, nonNil)
+	c30BindLenField(e, g, typ, field, nonNil)
 }
 
 // c30BindPacket binds, in g, the length and the first byte of every value of the
